@@ -12,7 +12,7 @@ import (
 // decomposition) the generators produce. Above 30, x/text's stream-safe
 // normaliser departs from UAX #15 NFKD (known finding D3); the generators
 // stay well below so that any mismatch they find is a new violation.
-const maxRun = 25
+const maxRun = 30
 
 // UniGen generates Unicode strings from the code points CPython knows.
 type UniGen struct {
